@@ -27,6 +27,13 @@ TRequest == IsEvent("request") /\ Built /\ RequestInvoice(Rec[l].n, Rec[l].src)
 TRespond == IsEvent("respond") /\ Built /\ RespondInvoice(Rec[l].n, Rec[l].src, Rec[l].cls)
 TRespondRefund == IsEvent("respond_refund") /\ Built /\ RespondToRefund(Rec[l].n, Rec[l].src)
 
+\* a builder call that failed is not judged (the property does not promise that builders succeed;
+\* the check's driver treats frequent failures as a tool error): nothing is built, and the engine
+\* stops building in this run -- the objects that exist are still verified
+BuildEvents == {"offer", "refund", "alter", "request", "respond", "respond_refund"}
+TBuildRefused == l <= Len(Rec) /\ Rec[l].ev \in BuildEvents /\ ~Rec[l].ok /\ l' = l + 1
+                 /\ UNCHANGED pvars
+
 TVerifyInvReq == IsEvent("verify_invreq")
   /\ VerifyInvReq(Rec[l].n, Rec[l].obj, Rec[l].via, Rec[l].nz, Rec[l].accept)
 TVerifyInvoice == IsEvent("verify_invoice") /\ VerifyInvoice(Rec[l].n, Rec[l].obj, Rec[l].accept)
@@ -45,7 +52,7 @@ TMut12 == IsEvent("mut12") /\ CaseMutate12(Rec[l].kind, Rec[l].parsed)
 TFuzz == IsEvent("fuzz") /\ Fuzz
 
 TraceNext == \/ TReset \/ TOffer \/ TRefund \/ TAlter \/ TRequest \/ TRespond \/ TRespondRefund
-             \/ TVerifyInvReq \/ TVerifyInvoice
+             \/ TBuildRefused \/ TVerifyInvReq \/ TVerifyInvoice
              \/ TCase \/ TCaseRefused \/ TRoundTrip \/ TMut11 \/ TMut12 \/ TFuzz
 
 TraceSpec == TraceInit /\ [][TraceNext]_tvars
